@@ -23,6 +23,10 @@ TiiEv == /\ Rec[l].ev = "Tii" /\ UNCHANGED <<seen, nUsed>>
                    \* (the number of names used is modelled for the transaction `transfer` only; a program may hold others)
                    ELSE IF e.tx = "transfer" /\ ~UsedAreRequired(e, nUsed) THEN Flag("used-not-required", [tx |-> e.tx])
                    ELSE IF ~e.tir_matches THEN Flag("tir-differs-from-lowering", [tx |-> e.tx])
+                   \* a client that supplies precisely what the file declares (parameters and parties as arguments, the
+                   \* environment entries as environment) gets every key the IR requires served by the request parser
+                   ELSE IF e.client \in {"err", "panic"} THEN Flag("client-refused", [tx |-> e.tx, outcome |-> e.client])
+                   ELSE IF e.client = "ok" /\ e.client_missing # <<>> THEN Flag("client-unserved", [tx |-> e.tx, missing |-> e.client_missing])
                    ELSE bad
 Next == l <= Len(Rec) /\ l' = l + 1 /\ (Reset \/ CaseEv \/ BuiltEv \/ TiiEv)
 Done == l = Len(Rec) + 1
